@@ -209,6 +209,13 @@ pub mod gnom {
                     }
                 }
             }
+            /// satisfy(pred): the first CHARACTER of the input (decoded as UTF-8) if the predicate accepts it
+            pub fn satisfy<'a, P: Fn(char) -> bool>(pred: P) -> impl Fn(&'a str) -> IResult<&'a str, char> {
+                move |i: &'a str| match i.chars().next() {
+                    Some(c) if pred(c) => Ok((&i[c.len_utf8()..], c)),
+                    _ => fail(i, ErrorKind::OneOf),
+                }
+            }
             /// char(c): exactly this (ASCII) character
             pub fn char<'a>(c: char) -> impl Fn(&'a str) -> IResult<&'a str, char> {
                 move |i: &'a str| {
